@@ -194,3 +194,43 @@ def evaluate_is_end_of_data(f):
             n_ok += 1
     return n_ok, n_und, bad, und
 
+
+
+def evaluate_probe(f):
+    """Bounded evaluation of the BER length probe (decode_full_length and everything it calls: skip_tag_length_contents, skip_tag, decode_length, the exception
+    classes and the handlers that map them to a result) on definite-length TLVs with low and high tag numbers, every length form, and *every prefix* of identifier +
+    length octets as well as prefixes that end inside the contents or behind the message: the answer is None ("not yet known") while the identifier and length
+    octets are incomplete and exactly len(header) + length afterwards -- never another number.
+    -> (cases that held, undecided, first failure or None, first undecided reason or None)"""
+    from . import evalexpr
+    pn = flow.param_names(f)
+    n_ok = n_und = 0
+    bad = und = None
+    for tag in (b'\x30', b'\x04', b'\xa0', b'\x7f\x21', b'\x5f\x81\x02', b'\x1f\x1f'):
+        for n in (0, 1, 5, 127, 128, 200, 256, 300):
+            k = max(1, (n.bit_length() + 7) // 8)
+            forms = [bytes([0x80 | k]) + n.to_bytes(k, 'big'), bytes([0x80 | (k + 1)]) + n.to_bytes(k + 1, 'big')]
+            if n <= 127:
+                forms.append(bytes([n]))
+            for lf in forms:
+                header = tag + lf
+                total = len(header) + n
+                msg = header + bytes(n) + b'\x02\x01\x00'
+                for cut in sorted(set(list(range(0, len(header) + 1)) + [len(header) + n // 2, total - 1, total, total + 2])):
+                    if cut < 0 or cut > len(msg):
+                        continue
+                    want = None if cut < len(header) else total
+                    try:
+                        got, _e = evalexpr.run_function(f, {pn[0]: msg[:cut]})
+                    except evalexpr.Raised as e:
+                        got = 'raises %s' % e.name
+                    except (evalexpr.Unsupported, KeyError, TypeError) as e:
+                        n_und += 1
+                        und = und or '%s(%s): %s' % (f.name, msg[:cut].hex(), e)
+                        continue
+                    if got != want:
+                        bad = bad or '%s(%s) gives %s for a %d-octet prefix of a message of %d octets (identifier %s, length octets %s): expected %s' % (
+                            f.name, msg[:cut][:12].hex() + ('..' if cut > 12 else ''), got, cut, total, tag.hex(), lf.hex(), want if want is not None else 'None ("not yet known")')
+                    else:
+                        n_ok += 1
+    return n_ok, n_und, bad, und
